@@ -28,7 +28,7 @@ def user_or_system_type(ctx, name="type"):
     return t
 
 
-def o1_origin(ctx, lx, ld, ack_to, tick_ms, role="net", multicast=True):
+def o1_origin(ctx, lx, ld, ack_to, tick_ms, role="net", multicast=True, reuse=False):
     from circuitpython_nrf24l01.network.structs import RF24NetworkHeader
     tick = tick_ms * 1_000_000  # constant within a run; enumerated (a symbolic tick makes every time comparison nonlinear)
     clock = fresh_env(ctx, tick_ns=tick)
@@ -61,9 +61,21 @@ def o1_origin(ctx, lx, ld, ack_to, tick_ms, role="net", multicast=True):
     clock.on_look = on_look
     if other is not None:
         ctx.assume(other != x)
+    frame = None
+    if reuse:
+        # the application keeps one frame object: it was first written to a direct neighbour with a type of the OTHER class
+        # (awaits / does not await a NETWORK_ACK), then re-addressed and re-typed
+        from circuitpython_nrf24l01.network.structs import RF24NetworkFrame
+        t_pre = ctx.int("type_before", 0, 127)
+        ctx.assume((t_pre > 64) != s_and(mtype > 64, mtype < 192))
+        frame = RF24NetworkFrame(RF24NetworkHeader(NS.next_hop(x, d), t_pre), b"pq")
+        node.write(frame)
+        frame.header.to_node, frame.header.message_type, frame.message = d, mtype, b"xy"
     state["start_looks"] = clock.looks
     t0, sent0 = clock.now, len(radio.sent)
-    if role == "mesh":
+    if frame is not None:
+        ok = node.write(frame)
+    elif role == "mesh":
         ok = node.write(d, mtype, b"xy")
     else:
         ok = node.send(RF24NetworkHeader(d, mtype), b"xy")
@@ -292,6 +304,8 @@ def jobs(tier):
         out.append(Job("O1-origin-ignores-foreign-ack", o1_origin, dict(lx=lx, ld=ld, ack_to="other", tick_ms=ticks[i % 3]), cost=50, shards=4))
         out.append(Job("O1-origin-ignores-foreign-ack", o1_origin, dict(lx=lx, ld=ld, ack_to="other", tick_ms=ticks[i % 3], multicast=False),
                        cost=50, shards=4))
+    for lx, ld in (((1, 3), (2, 2)) if tier == "quick" else ((0, 2), (1, 3), (2, 2), (3, 1), (2, 4))):
+        out.append(Job("O1-origin-reuses-a-frame-object", o1_origin, dict(lx=lx, ld=ld, ack_to="self", tick_ms=7, reuse=True), cost=80, shards=4))
     if tier == "thorough":
         for lx, ld in ((1, 2), (2, 0), (3, 3)):
             out.append(Job("O1-origin-mesh-node", o1_origin, dict(lx=lx, ld=ld, ack_to="self", tick_ms=3, role="mesh"), cost=50, shards=4))
